@@ -21,6 +21,7 @@
 """SSH connection handlers"""
 
 import asyncio
+import copy
 import functools
 import getpass
 import inspect
@@ -5990,8 +5991,11 @@ class SSHServerConnection(SSHConnection):
         for alg in peer_host_key_algs:
             keypair = self._server_host_keys.get(alg)
             if keypair:
-                if alg != keypair.algorithm:
-                    keypair.set_sig_algorithm(alg)
+                # Host key pairs are shared by all connections accepted
+                # by a listener: select the signature algorithm on a
+                # copy which belongs to this connection
+                keypair = copy.copy(keypair)
+                keypair.set_sig_algorithm(alg)
 
                 self._server_host_key = keypair
                 return True
